@@ -148,6 +148,9 @@ def scan(mod, ll_text, facts=None):
                                        'guarantees %d' % (k, pn, at[1], decl)))
         if issues:
             out[name] = issues
+    for name, texts in bitfield_promotion_hazards(mod).items():
+        for t in sorted(set(texts)):
+            out.setdefault(name, []).append(('bitfield-promotion', t))
     for name, texts in eval_order_hazards(mod, facts).items():
         for t in sorted(set(texts)):
             out.setdefault(name, []).append(('evaluation-order', t))
@@ -159,10 +162,11 @@ def scan(mod, ll_text, facts=None):
                                              'aligned to that many octets, but its type only guarantees %d and the PDU may lie '
                                              'anywhere - the caller\'s compiler may use aligned wide accesses or fold alignment '
                                              'tests' % (attr, n if n is not None else '?', hdr, decl)))
-    for name, (hdr, line) in macro_shadows(mod).items():
-        out.setdefault(name, []).append(('macro-shadow', 'is shadowed by a preprocessor macro of the same name at %s:%d: where that '
+    for name, (hdr, line, what) in macro_shadows(mod).items():
+        out.setdefault(name, []).append(('macro-shadow', 'is shadowed by %s of the same name at %s:%d: where that '
                                          'definition is active, callers do not reach this function, and nothing proved about '
-                                         'it (null handling, returned bits, frame condition) holds for them' % (hdr, line)))
+                                         'it (null handling, returned bits, frame condition) holds for them'
+                                         % ('a preprocessor macro' if what == 'macro' else 'an inline function definition', hdr, line)))
     return out
 
 
@@ -214,12 +218,18 @@ def eval_order_hazards(mod, facts):
             for a in ins.args:
                 cone(a, acc, depth + 1)
         summ = facts
+        BINARY = ('add', 'sub', 'mul', 'udiv', 'sdiv', 'urem', 'srem', 'shl', 'lshr', 'ashr', 'and', 'or', 'xor', 'icmp')
         for ins in fn.instrs():
-            if ins.op != 'call' or len(ins.args) < 2:
+            if ins.op in BINARY:
+                # the operands of an arithmetic operator are unsequenced in the same way: `n + f(&n)`
+                if len(ins.args) != 2:
+                    continue
+            elif ins.op != 'call' or len(ins.args) < 2:
                 continue
-            c = ins.x['callee']
-            if c[0] == 'g' and (c[1].startswith('llvm.dbg') or c[1].startswith('llvm.lifetime')):
-                continue
+            else:
+                c = ins.x['callee']
+                if c[0] == 'g' and (c[1].startswith('llvm.dbg') or c[1].startswith('llvm.lifetime')):
+                    continue
             cones = []
             for a in ins.args:
                 acc = {}
@@ -275,11 +285,54 @@ def eval_order_hazards(mod, facts):
                         if var in r and i != j:
                             l = mod.loc(ins.dbg)
                             out.setdefault(name, []).append(
-                                'argument %d of the call at line %s uses the local variable %%%s (directly or through a nested call '
-                                'that is handed its address) while argument %d calls %s with '
-                                'its address (and %s may modify it): the order of evaluation of function arguments is unspecified '
+                                'operand %d of the %s at line %s uses the local variable %%%s (directly or through a nested call '
+                                'that is handed its address) while operand %d calls %s with '
+                                'its address (and %s may modify it): the order of evaluation of function arguments and of operands is unspecified '
                                 '- clang evaluates left to right, GCC right to left - so the compiled behaviour depends on the '
-                                'compiler' % (j, l[1] if l else '?', var, i, callee, callee))
+                                'compiler' % (j, 'call' if ins.op == 'call' else "'%s' expression" % ins.op, l[1] if l else '?', var, i,
+                                              callee, callee))
+    return out
+
+
+def bitfield_promotion_hazards(mod):
+    """{function: [text]}: arithmetic on a bit-field wider than `int` (`struct { uint64_t id : 48; }`, `x.id << 16`):
+    GCC evaluates the expression in the bit-field's own width (48 bits), clang promotes to the declared type (64 bits),
+    so the two compilers compute different values whenever the result needs more bits than the field has"""
+    out = {}
+    for name, fn in mod.functions.items():
+        defs = {}
+        for ins in fn.instrs():
+            if ins.dest is not None:
+                defs[ins.dest] = ins
+        for ins in fn.instrs():
+            if ins.op not in ('shl', 'mul', 'add', 'sub'):
+                continue
+            for a in ins.args:
+                if a[1][0] != 'r':
+                    continue
+                d = defs.get(a[1][1])
+                if d is None:
+                    continue
+                k = None
+                # clang reads a wide bit-field either through an integer of the storage width (i40/i48/i56, then zext) or
+                # as `%bf.clear = and i64 %bf.load, 2^k - 1`
+                if d.op in ('zext', 'sext') and d.args[0][1][0] == 'r':
+                    t = mod.resolve(d.args[0][0])
+                    if t[0] == 'i' and 32 < t[1] < 64 and str(d.args[0][1][1]).startswith('bf.'):
+                        k = t[1]
+                elif d.op == 'and' and str(d.dest).startswith('bf.'):
+                    for o in d.args:
+                        if o[1][0] == 'c':
+                            m = o[1][1]
+                            if m > 0 and (m & (m + 1)) == 0 and 32 < m.bit_length() < 64:
+                                k = m.bit_length()
+                if k is None:
+                    continue
+                l = mod.loc(ins.dbg)
+                out.setdefault(name, []).append(
+                    "the '%s' at line %s computes with a %d-bit bit-field value: GCC evaluates such an expression in %d "
+                    'bits, clang (whose code is analysed here) in the declared 64-bit type, so the result differs between the '
+                    'compilers whenever it does not fit the bit-field' % (ins.op, l[1] if l else '?', k, k))
     return out
 
 
@@ -292,6 +345,16 @@ def macro_shadows(mod, repo=None):
     from . import build
     repo = repo or build.REPO
     out = {}
+    # functions the library exports from its own source files (a `static inline` helper that lives in a header is its
+    # own definition, not a shadow of something else)
+    exported = set()
+    for n, f in mod.functions.items():
+        if any(l in ('internal', 'private', 'available_externally', 'linkonce_odr', 'linkonce') for l in getattr(f, 'linkage', ())):
+            continue
+        loc = mod.fn_loc(n)
+        if loc and loc[0] and '/include/' in loc[0]:
+            continue
+        exported.add(n)
     for path in sorted(glob.glob(os.path.join(repo, 'include', '**', '*.h'), recursive=True)):
         try:
             text = open(path, errors='replace').read()
@@ -299,8 +362,15 @@ def macro_shadows(mod, repo=None):
             continue
         text = text.replace('\\\n', ' ')
         for m in re.finditer(r'^[ \t]*#[ \t]*define[ \t]+(\w+)', text, re.M):
-            if m.group(1) in mod.functions:
-                out.setdefault(m.group(1), (os.path.relpath(path, repo), text.count('\n', 0, m.start()) + 1))
+            if m.group(1) in exported:
+                out.setdefault(m.group(1), (os.path.relpath(path, repo), text.count('\n', 0, m.start()) + 1, 'macro'))
+        # a function *definition* in a header (extern inline / gnu_inline / static inline under some #if) with the name
+        # of a library function: callers that see it run that body, not the library's
+        nocomment = re.sub(r'/\*.*?\*/', lambda mm: '\n' * mm.group(0).count('\n'), text, flags=re.S)
+        nocomment = re.sub(r'//[^\n]*', '', nocomment)
+        for m in re.finditer(r'\b(\w+)\s*\((?:[^;{}()]|\([^()]*\))*\)\s*\{', nocomment):
+            if m.group(1) in exported:
+                out.setdefault(m.group(1), (os.path.relpath(path, repo), nocomment.count('\n', 0, m.start()) + 1, 'inline definition'))
     return out
 
 
@@ -362,7 +432,7 @@ def closure(mod, fnames):
     return seen
 
 
-MEMORY_KINDS = ('const-promise', 'pure-promise', 'macro-shadow', 'evaluation-order')
+MEMORY_KINDS = ('const-promise', 'pure-promise', 'macro-shadow', 'evaluation-order', 'bitfield-promotion')
 NULL_KINDS = ('nonnull-param', 'dereferenceable-param', 'nonnull-return', 'macro-shadow')
 ALIGN_KINDS = ('aligned-return', 'aligned-param')
 
@@ -383,4 +453,38 @@ def report(ctx, res, fnames, kinds, tag=''):
                 res.violation('promise:%s:%s%s' % (f, kind, tag), '%s: %s' % (FC.fnloc(ctx, f), text))
     if not n:
         res.ok()
+    # code of these functions' files (or of a public header) that no analysed configuration compiles
+    from . import coverage
+    dead = coverage.dead_lines()
+    if dead and not tag:
+        files = set()
+        for f in fs:
+            l = ctx.mod.fn_loc(f)
+            if l and l[0]:
+                files.add(FC.rel(l[0]))
+        for path, lines in sorted(dead.items()):
+            if path in files or path.startswith('include/'):
+                # not a verdict: conditional code for other compilers / language levels is normal and mostly harmless.  It
+                # is stated so that "holds" is read as "holds for the configurations analysed".
+                msg = ('%s: %d line(s) of code are compiled in none of the analysed configurations (first: line %d `%s`) - a '
+                       'branch of a preprocessor conditional on the compiler, the optimisation mode, the language level or the '
+                       'target that only other builds take; the verdict does not cover those builds'
+                       % (path, len(lines), lines[0][0], lines[0][1][:80]))
+                if msg not in res.notes:
+                    res.notes.append(msg)
+                res.extra.setdefault('code not compiled in any analysed configuration', {})[path] = [n for n, _ in lines][:50]
+    cs = coverage.compiler_specific()
+    if cs and not tag:
+        files = set()
+        for f in fs:
+            l = ctx.mod.fn_loc(f)
+            if l and l[0]:
+                files.add(FC.rel(l[0]))
+        for path, items in sorted(cs.items()):
+            if path in files or path.startswith('include/'):
+                msg = ('%s:%d uses %s - the two compilers build different programs from this source, and only clang\'s is '
+                       'analysed here; the verdict does not cover GCC builds of these lines' % (path, items[0][0], items[0][1]))
+                if msg not in res.notes:
+                    res.notes.append(msg)
+                res.extra.setdefault('constructs GCC and clang interpret differently', {})[path] = [n for n, _ in items][:50]
     return n
